@@ -6,39 +6,6 @@ Require Import ReaderProofs ScanProofs TextProofs TokenProofs NumTokenProofs Cha
 
 (* ---- the values covered ---- *)
 
-(* identifiers the default reader takes as one symbol token wherever they
-   stand: an ASCII letter, one of !$%&*./<=>?@^_~ or ':' first, or a sign
-   followed by nothing, a sign-subsequent, '.' or a non-ASCII character; no
-   whitespace, parenthesis, bracket or ';' inside; well-formed UTF-8; not "." *)
-Definition plain_symbol (s : bytes) : Prop :=
-  no_terminator s /\ symbol_ok s /\
-  match s with
-  | [] => False
-  | c :: s' =>
-      (is_ascii_alpha c = true \/ In c ext_initial \/ c = 58)
-      \/ ((c = 43 \/ c = 45) /\ match s' with [] => True | c2 :: _ => sign_next_ok c2 = true end)
-  end.
-
-Fixpoint rt_ok (v : value) : Prop :=
-  match v with
-  | Nil | Null | Bool _ => True
-  | Number (PosInt n) => n <= u64_MAX
-  | Number (NegInt i) => (i64_min <= i < 0)%Z
-  | Number (Float _) => False
-  | Char c => is_scalar c = true
-  | String s => utf8_valid s = true
-  | Symbol s => plain_symbol s
-  | Keyword s => no_terminator s /\ symbol_ok s
-  | Bytes b => octets_ok b
-  | Cons a d => rt_ok a /\ rt_ok d
-  | Vector l => (fix all (l : list value) : Prop :=
-                   match l with [] => True | x :: l' => rt_ok x /\ all l' end) l
-  end.
-Definition all_rt_ok : list value -> Prop :=
-  fix all (l : list value) : Prop := match l with [] => True | x :: l' => rt_ok x /\ all l' end.
-Lemma rt_ok_vector l : rt_ok (Vector l) = all_rt_ok l.
-Proof. reflexivity. Qed.
-
 (* nesting budget needed to read a value back: "()" takes a level too *)
 Fixpoint rdepth (v : value) : nat :=
   match v with
@@ -77,6 +44,7 @@ Proof. intros H. apply inc_depth_spec. exact H. Qed.
 Lemma build_snoc acc a d : build (acc ++ [a]) d = build acc (Cons a d).
 Proof. induction acc as [|x acc IH]; cbn [app build]; [reflexivity|]. now rewrite IH. Qed.
 
+
 Section Roundtrip.
   Variable ryu : f64 -> bytes.
   Variable alpha : N -> bool.
@@ -90,6 +58,44 @@ Section Roundtrip.
   Local Notation txt := (txt ryu).
   Local Notation txt_tail := (txt_tail ryu).
   Local Notation vec_elems := (vec_elems ryu).
+
+
+(* identifiers the default reader takes as one symbol token wherever they
+   stand: an ASCII letter, one of !$%&*./<=>?@^_~ or ':' first, or a sign
+   followed by nothing, a sign-subsequent, '.' or a non-ASCII character, or a
+   non-ASCII alphabetic character (char::is_alphabetic, the oracle alpha) first; no
+   whitespace, parenthesis, bracket or ';' inside; well-formed UTF-8; not "." *)
+Definition plain_symbol (s : bytes) : Prop :=
+  no_terminator s /\ symbol_ok s /\
+  match s with
+  | [] => False
+  | c :: s' =>
+      (is_ascii_alpha c = true \/ In c ext_initial \/ c = 58)
+      \/ ((c = 43 \/ c = 45) /\ match s' with [] => True | c2 :: _ => sign_next_ok c2 = true end)
+      \/ (127 < c /\ lead_ok c = true /\
+          exists conts rest', s' = conts ++ rest' /\ length conts = cont_len c /\
+            utf8_valid (c :: conts) = true /\ alpha (utf8_decode_head (c :: conts)) = true)
+  end.
+
+Fixpoint rt_ok (v : value) : Prop :=
+  match v with
+  | Nil | Null | Bool _ => True
+  | Number (PosInt n) => n <= u64_MAX
+  | Number (NegInt i) => (i64_min <= i < 0)%Z
+  | Number (Float _) => False
+  | Char c => is_scalar c = true
+  | String s => utf8_valid s = true
+  | Symbol s => plain_symbol s
+  | Keyword s => no_terminator s /\ symbol_ok s
+  | Bytes b => octets_ok b
+  | Cons a d => rt_ok a /\ rt_ok d
+  | Vector l => (fix all (l : list value) : Prop :=
+                   match l with [] => True | x :: l' => rt_ok x /\ all l' end) l
+  end.
+Definition all_rt_ok : list value -> Prop :=
+  fix all (l : list value) : Prop := match l with [] => True | x :: l' => rt_ok x /\ all l' end.
+Lemma rt_ok_vector l : rt_ok (Vector l) = all_rt_ok l.
+Proof. reflexivity. Qed.
 
   (* what next_value does with a token *)
   Definition after_token (f : nat) (tok : token) : PM (option value) :=
@@ -265,14 +271,15 @@ Section Roundtrip.
       cbn [rt_ok] in Hok. destruct Hok as (Hn & Hsok & Hfirst). destruct s as [|c s']; [contradiction|].
       exists c, s'. split; [reflexivity|].
       assert (Hcls : is_ws c = false /\ c <> 59 /\ is_closer c = false).
-      { destruct Hfirst as [[Ha|[Hi| ->]]|[[->| ->] _]].
+      { destruct Hfirst as [[Ha|[Hi| ->]]|[[[->| ->] _]|[Hhi _]]].
         - unfold is_ascii_alpha, is_ascii_lower, is_ascii_upper, in_range in Ha.
           unfold is_ws, is_closer, memb. cbn [existsb]. repeat split; lia.
         - unfold ext_initial in Hi. cbn in Hi.
           repeat (destruct Hi as [<-|Hi]; [repeat split; try reflexivity; discriminate|]). contradiction.
         - repeat split; try reflexivity; discriminate.
         - repeat split; try reflexivity; discriminate.
-        - repeat split; try reflexivity; discriminate. }
+        - repeat split; try reflexivity; discriminate.
+        - unfold is_ws, is_closer, memb. cbn [existsb]. repeat split; lia. }
       destruct Hcls as (H1 & H2 & H3). repeat split; auto. intros _. eexists; reflexivity.
     - eapply (Hsimple 35); try reflexivity; discriminate.
     - eapply (Hsimple 35); try reflexivity; discriminate.
@@ -382,7 +389,7 @@ Section Roundtrip.
   Proof.
     p_intro f. cbn [rt_ok] in Hok. destruct Hok as (Hn & Hsok & Hfirst).
     change (txt (Symbol s)) with s in *. destruct s as [|c s']; [contradiction|]. cbn [app] in Ha.
-    destruct Hfirst as [Hc|[Hc Hnext]].
+    destruct Hfirst as [Hc|[[Hc Hnext]|(Hhi & Hlead & conts & rest' & Es & Hlen & Hv & Hal)]].
     - assert (Hst : starts_datum c).
       { destruct Hc as [Hal|[Hi| ->]].
         - unfold is_ascii_alpha, is_ascii_lower, is_ascii_upper, in_range in Hal.
@@ -399,6 +406,16 @@ Section Roundtrip.
       destruct (tok_symbol_sign alpha fast std_parse f r0 c s' rest Hc Hnext ltac:(cbn [length] in *; lia) Hn
                   Hr Hsok Ha0 Hp0) as (r1 & E1 & Ha1 & Hk1).
       p_done Hnv E1 r1.
+    - assert (Hst : starts_datum c) by (unfold starts_datum, is_ws, memb; cbn [existsb]; split; lia).
+      destruct (next_value_at f r D pre c _ ltac:(lia) Hpre Ha Hst) as (r0 & Ha0 & Hp0 & Hk0 & Hnv).
+      subst s'. assert (Hn' : no_terminator rest').
+      { inversion Hn as [|? ? _ Hn1]; subst. apply Forall_app in Hn1. apply Hn1. }
+      assert (Ha0' : at_bytes r0 ((c :: conts) ++ rest' ++ rest)).
+      { cbn [app]. rewrite <- app_assoc in Ha0. exact Ha0. }
+      destruct (tok_symbol_nonascii alpha fast std_parse f r0 c conts rest' rest Hhi Hlead Hlen Hv Hal
+                  ltac:(cbn [length] in Hf; rewrite app_length in Hf; lia) Hn' (delim_ok_terminator rest Hr)
+                  ltac:(cbn [app]; exact Hsok) Ha0' Hp0) as (r1 & E1 & Ha1 & Hk1).
+      cbn [app] in E1. p_done Hnv E1 r1.
   Qed.
 
 
